@@ -38,6 +38,15 @@ end
 /-- `get_newick(with_distances=w)` with the final semicolon -/
 def newickToks (w : Bool) (t : PTree K) : List (Tok K) := toks w t ++ [Tok.semi]
 
+/- what survives printing: everything when `w` (with_distances), otherwise no lengths -/
+mutual
+def stripLens (w : Bool) : PTree K → PTree K
+  | .node n l cs => .node n (if w then l else none) (stripLensL w cs)
+def stripLensL (w : Bool) : List (PTree K) → List (PTree K)
+  | [] => []
+  | c :: cs => stripLens w c :: stripLensL w cs
+end
+
 /-! ### `parse_string` -/
 structure Frame (K : Type) where
   nodes : List (PTree K)
